@@ -28,7 +28,7 @@ def run(ctx, rep):
         "inside the child loop is a constant False conditional on the recursive comparison of the pair at the same index, and "
         "True is reachable only after the loop; each dict field is compared symmetrically (length + key-wise, or ==); every "
         "early-exit guard is evaluated on equal and on different field values")
-    rep.rules_run = ["R1", "R2", "R3", "R4"]
+    rep.rules_run = ["R1", "R2", "R3", "R4", "R5"]
     prog = ctx.prog
     w = ctx.world
     nm = w.nm
@@ -187,6 +187,53 @@ def run(ctx, rep):
                 rep.add("R4", fi.qname, n.test, f"with {prop} = {v1!r} / {v2!r} the guard {'rejects' if res[1] is True else 'raises ' + str(res[1]) if res[0] == 'raises' else 'does not reject'}; "
                         f"it must reject exactly when the two values differ", fi.loc(n))
                 break
+    # ---- R5 every field is compared on every path that answers True (no flag or state can switch a comparison off)
+    from ..marks import MarkDomain, must_at, run_marks
+    md = MarkDomain()
+    for n in ast.walk(fi.node):
+        if isinstance(n, ast.Compare):
+            fs = {}
+            for x in ast.walk(n):
+                r = _field_of(nm, x, params)
+                if r:
+                    fs.setdefault(r[1], set()).add(r[0])
+            for f, who in fs.items():
+                if who == {p1, p2}:
+                    md.mark(n, f"CMP:{f}")
+        elif isinstance(n, ast.Call) and len(n.args) >= 2:
+            # a comparison helper / zip over the two child lists / the recursive call compares what it is handed of both
+            fs = {}
+            for a in n.args[:2]:
+                for x in ast.walk(a):
+                    r = _field_of(nm, x, params)
+                    if r:
+                        fs.setdefault(r[1], set()).add(r[0])
+            for f, who in fs.items():
+                if who == {p1, p2}:
+                    md.mark(n, f"CMP:{f}")
+    trues = [n for n in ast.walk(fi.node) if isinstance(n, ast.Return) and isinstance(n.value, ast.Constant) and n.value.value is True]
+    for t in trues:
+        md.probe(t)
+    run_marks(ctx, fi, md)
+    same_obj = set()
+    from ..condeval import enclosing_ifs as _eifs
+    for t in trues:
+        # the identity shortcut at the top (`if node1 is node2: return True`) is outside the property (distinct trees)
+        gs = _eifs(fi, t)
+        if gs and any(isinstance(g.test, ast.Compare) and (isinstance(g.test.ops[0], ast.Is) or "id(" in norm(g.test)) and b for g, b in gs):
+            continue
+        must = must_at(md, t)
+        if must is None:
+            continue
+        rep.count("paths answering True")
+        for f in nm.fields:
+            if f in EXCLUDED:
+                continue
+            ok = f"CMP:{f}" in must
+            rep.oblige(("R5", f, getattr(t, "lineno", 0)), ok)
+            if not ok:
+                rep.add("R5", fi.qname, t, f"is_equal can answer True on a path that never compares {f} of the two nodes (the comparison is switched off by a "
+                        f"flag or a condition): trees that differ there compare equal, and not symmetrically", fi.loc(t))
     rep.floor("guard verdicts", 12)
     rep.floor("dict fields", 3)
 
